@@ -21,8 +21,18 @@
 (*                whose constructor threads {} through those elements once *)
 (*                more; LenaSplit.__init__: _set_context({}) returns at    *)
 (*                once (split.py:125-127)                                  *)
-(*   UseRoot      root._get_context(), then two values (0, {"rt": 0}),     *)
-(*                (0, {"rt": 1}) are run through the finished pipeline     *)
+(*   UseRoot      root._get_context(), then the values of one of the       *)
+(*                family's inputs (by default (0, {"rt": 0}),              *)
+(*                (0, {"rt": 1}); a family may add values whose run-time   *)
+(*                context carries keys that are static keys as well) are   *)
+(*                run through the finished pipeline, element by element    *)
+(*                (OpRoot: MakeFilename.__call__ per value); every Cache   *)
+(*                leaves its file (disk)                                   *)
+(*   Again        the same program is executed once more (a new process:   *)
+(*                all objects are constructed again, token by token as     *)
+(*                recorded in script) while the files of the first         *)
+(*                execution exist; Split.__init__ looks at the disk        *)
+(*                (alter_sequence of every branch, core/meta.py)           *)
 (*                                                                         *)
 (* The passes are transcribed from the code:                               *)
 (*   SeqLoop   LenaSequence._set_context (lena_sequence.py:95-133):        *)
@@ -54,6 +64,17 @@
 (*                FALSE: only its data elements (source.py:61)             *)
 (*   SplitContinues TRUE: LenaSplit._set_context goes on with the other    *)
 (*                branches when one raises; FALSE: it is left (split.py)   *)
+(*   MFRunCopies  TRUE: MakeFilename.__call__ works on a deep copy of the  *)
+(*                context it holds (make_filename.py:142); FALSE: on a     *)
+(*                copy of the top level, into which the run-time context   *)
+(*                is merged recursively (the nested dictionaries are the   *)
+(*                held ones) - RunKeepsStatic is violated                  *)
+(*                (StaticContext_mfshare.cfg)                              *)
+(*   AlterApplied FALSE: alter_sequence returns the branch it was given    *)
+(*                (core/meta.py:28-30); TRUE: a Sequence branch with a     *)
+(*                filled Cache becomes Source(cache, elements after it) -  *)
+(*                the SetContext elements before the Cache are lost in     *)
+(*                the second execution (StaticContext_alter.cfg)           *)
 (* With (TRUE, TRUE) all properties below hold; with either switch FALSE   *)
 (* TLC finds counterexamples to SeenIsExpected (StaticContext_alias.cfg,   *)
 (* StaticContext_tail.cfg), e.g. Sequence(SetContext a, MakeFilename,      *)
@@ -63,18 +84,26 @@ EXTENDS StaticSem, Json
 
 \* Families: the bounded universes explored by one run.  A family is
 \*   [id, leaves (alphabet), maxtok, roots]; it is chosen in Init and never changes.
-CONSTANTS MaxDepth, Families, StoreByCopy, TailKeepsSets, SplitContinues, SkipEmpty, SplitCachesExport, SrcFRepass
+CONSTANTS MaxDepth, Families, StoreByCopy, TailKeepsSets, SplitContinues, SkipEmpty, SplitCachesExport, SrcFRepass,
+          MFRunCopies, AlterApplied
 
 VARIABLES fam,     \* the family of this behaviour
-          els,     \* objects constructed so far (construction order)
+          els,     \* objects constructed so far (construction order): the program as written
+          eff,     \* the Split branches alter_sequence replaced: branch id -> [k, ch] of the object
+                   \* that is wired instead (always empty unless the defect model AlterApplied)
           open,    \* stack of brackets being evaluated: [k, ch]
           st,      \* per object: [has, ctx, exc, nm]
           pol,     \* how bare accumulator branches count (freedom of the statement)
           phase,   \* "build" "built" "done"
           gctx,    \* result of root._get_context()
           rt,      \* run-time contexts that left the pipeline
-          peek     \* node whose _get_context() was requested right after it was built (0: none)
-vars == <<fam, els, open, st, pol, phase, gctx, rt, peek>>
+          peek,    \* node whose _get_context() was requested right after it was built (0: none)
+          vin,     \* run-time contexts of the values that were sent through the pipeline
+          gen,     \* 1: first execution of the program, 2: it is executed again
+          script,  \* gen 1: the constructor calls so far; gen 2: the calls still to be repeated
+          disk,    \* names of the cache files that exist
+          first    \* gen 2: what the first execution ended with
+vars == <<fam, els, eff, open, st, pol, phase, gctx, rt, peek, vin, gen, script, disk, first>>
 \* tokens evaluated so far: every leaf and every bracket is an object or still open
 ntok == Len(els) + Len(open)
 
@@ -220,11 +249,116 @@ Construct(E, p, n, s) ==
     [] OTHER -> s          \* LenaSplit.__init__: empty context, returns at once
 
 (***************************************************************************)
+(* Split.__init__: seqs = [meta.alter_sequence(seq) for seq in seqs]       *)
+(* (split.py:196).  alter_sequence flattens a Sequence branch and asks its *)
+(* elements; Cache.alter_sequence (cache.py:171-205) answers, when a Cache *)
+(* of the branch finds its file, with                                      *)
+(*     Source(SourceEl(cache, call="_load_flow"), *elements after it)      *)
+(* meta.alter_sequence computes that answer and returns the branch it was  *)
+(* given (AlterApplied = FALSE); the defect model returns the answer.      *)
+(* Either way the answer is constructed: the constructor of that Source    *)
+(* threads {} through the element objects after the Cache (which are the   *)
+(* objects of the branch) - harmless as long as an empty context is        *)
+(* skipped (SkipEmpty).                                                    *)
+(* dk = names of the files that exist.  Result [E, s].                     *)
+(***************************************************************************)
+RECURSIVE Flat(_, _)
+Flat(E, ch) == IF ch = <<>> THEN <<>>
+               ELSE (IF E[Head(ch)].k = "seq" THEN Flat(E, E[Head(ch)].ch) ELSE <<Head(ch)>>) \o Flat(E, Tail(ch))
+CacheFiles(E, s) == {s[j].nm : j \in {i \in 1..Len(E) : E[i].k = "cache" /\ s[i].has}}
+AlterBranch(E, p, b, s, dk) ==
+  LET fl == Flat(E, E[b].ch)
+      filled == {j \in 1..Len(fl) : E[fl[j]].k = "cache" /\ s[fl[j]].has /\ s[fl[j]].nm \in dk}
+  IN IF E[b].k # "seq" \/ filled = {} THEN [E |-> E, s |-> s]
+     ELSE LET last == CHOOSE j \in filled : \A j2 \in filled : j2 <= j
+              \* a new Source object: the cache generates the flow (it is not initialised again)
+              E2 == [E EXCEPT ![b] = [@ EXCEPT !.k = "src", !.ch = SubSeq(fl, last + 1, Len(fl))]]
+              s2 == SourceInit(E2, p, b, [s EXCEPT ![b] = St0])
+          IN IF AlterApplied THEN [E |-> E2, s |-> s2]
+             \* the new object is dropped, the Sequence object stays the branch
+             ELSE [E |-> E, s |-> [s2 EXCEPT ![b] = s[b]]]
+RECURSIVE AlterBranches(_, _, _, _, _)
+AlterBranches(E, p, bs, s, dk) ==
+  IF bs = <<>> THEN [E |-> E, s |-> s]
+  ELSE LET r == AlterBranch(E, p, Head(bs), s, dk) IN AlterBranches(r.E, p, Tail(bs), r.s, dk)
+
+(***************************************************************************)
+(* The run, element by element.  seen[i] = the static context element i    *)
+(* holds; every operator returns [vals, seen].  An element sees the values *)
+(* in their order, and nothing an element holds depends on another         *)
+(* element's run: element-major order is as good as the lazy value-major   *)
+(* order of the generators.                                                *)
+(***************************************************************************)
+\* MakeFilename.__call__ for one value (make_filename.py:133-150): [s, rc]
+MFCall(k, tpl, s, rc) ==
+  IF Get(rc, <<"output", OutField(k)>>).ok THEN [s |-> s, rc |-> rc]
+  ELSE LET \* full_context = deepcopy(self._context); full_context.update(context)
+           \* defect model: full_context = self._context.copy(); update_recursively(full_context, context)
+           \* - the nested dictionaries of full_context are the held ones
+           full == IF MFRunCopies THEN OverTop(s, rc) ELSE UpdRec(s, rc)
+           s2 == IF MFRunCopies THEN s
+                 ELSE Dict([key \in DOMAIN s.m |->
+                              IF key \in DOMAIN rc.m /\ IsDict(s.m[key]) /\ IsDict(rc.m[key])
+                              THEN UpdRec(s.m[key], rc.m[key]) ELSE s.m[key]])
+           r == Fmt(tpl.toks, full)
+       IN [s |-> s2, rc |-> IF r.ok THEN Put(rc, <<"output", OutField(k)>>, Leaf("str", r.s)) ELSE rc]
+RECURSIVE MFCalls(_, _, _, _, _)
+MFCalls(k, tpl, s, vals, out) ==
+  IF vals = <<>> THEN [s |-> s, out |-> out]
+  ELSE LET c == MFCall(k, tpl, s, Head(vals)) IN MFCalls(k, tpl, c.s, Tail(vals), Append(out, c.rc))
+
+RECURSIVE OpList(_, _, _, _, _), OpCat(_, _, _, _, _), OpSrcF(_, _, _, _)
+OpBranches(E, in, seen, bs, vals) ==
+  LET IsAcc(b) == E[b].k = "acc"
+      NotAcc(b) == ~IsAcc(b)
+      r1 == OpCat(E, in, seen, SelectSeq(bs, NotAcc), vals)
+      r2 == OpCat(E, in, r1.seen, SelectSeq(bs, IsAcc), vals)
+  IN [vals |-> r1.vals \o r2.vals, seen |-> r2.seen]
+OpList(E, in, seen, ch, vals) ==
+  IF ch = <<>> THEN [vals |-> vals, seen |-> seen]
+  ELSE LET e == Head(ch) IN
+    CASE E[e].k = "ucfs" ->      \* update_recursively(context, deepcopy(self._context))
+           LET F(rc) == UpdRec(rc, seen[e]) IN OpList(E, in, seen, Tail(ch), MapSeq(F, vals))
+      [] IsMF(E[e].k) ->
+           LET r == MFCalls(E[e].k, E[e].v, seen[e], vals, <<>>)
+           IN OpList(E, in, [seen EXCEPT ![e] = r.s], Tail(ch), r.out)
+      [] E[e].k = "seq" -> LET r == OpList(E, in, seen, E[e].ch, vals) IN OpList(E, in, r.seen, Tail(ch), r.vals)
+      [] E[e].k = "split" -> LET r == OpBranches(E, in, seen, E[e].ch, vals) IN OpList(E, in, r.seen, Tail(ch), r.vals)
+      [] OTHER -> OpList(E, in, seen, Tail(ch), vals)
+OpCat(E, in, seen, l, vals) ==
+  IF l = <<>> THEN [vals |-> <<>>, seen |-> seen]
+  ELSE LET b == Head(l)
+           r == CASE E[b].k = "acc" -> [vals |-> IF vals = <<>> THEN <<Empty>> ELSE <<vals[Len(vals)]>>, seen |-> seen]
+                  [] E[b].k = "src" -> OpList(E, in, seen, E[b].ch, in)
+                  [] E[b].k = "srcf" -> OpSrcF(E, in, seen, b)
+                  [] OTHER -> OpList(E, in, seen, E[b].ch, vals)
+           q == OpCat(E, in, r.seen, Tail(l), vals)
+       IN [vals |-> r.vals \o q.vals, seen |-> q.seen]
+OpSrcF(E, in, seen, n) ==
+  LET ch == E[n].ch
+      gp == GenPos(E, ch, 1)
+      g == ch[gp]
+      r0 == CASE E[g].k = "src" -> OpList(E, in, seen, E[g].ch, in)
+              [] E[g].k = "srcf" -> OpSrcF(E, in, seen, g)
+              [] OTHER -> OpBranches(E, in, seen, E[g].ch, <<>>)
+  IN OpList(E, in, r0.seen, SubSeq(ch, gp + 1, Len(ch)), r0.vals)
+OpRoot(E, in, seen) == LET r == Len(E) IN
+  IF E[r].k = "split" THEN OpBranches(E, in, seen, E[r].ch, in)
+  ELSE IF E[r].k = "srcf" THEN OpSrcF(E, in, seen, r)
+  ELSE OpList(E, in, seen, E[r].ch, in)
+
+(***************************************************************************)
 (* Actions.                                                                *)
 (***************************************************************************)
+\* the element table as the objects are wired
+Wired(E, a) == IF DOMAIN a = {} THEN E
+               ELSE [j \in 1..Len(E) |-> IF j \in DOMAIN a THEN [E[j] EXCEPT !.k = a[j].k, !.ch = a[j].ch] ELSE E[j]]
+Eff == Wired(els, eff)
+
 Init == /\ fam \in Families
         /\ els = <<>> /\ open = <<>> /\ st = <<>> /\ pol = "code" /\ phase = "build"
         /\ gctx = NoRes /\ rt = <<>> /\ peek = 0
+        /\ eff = <<>> /\ vin = <<>> /\ gen = 1 /\ script = <<>> /\ disk = {} /\ first = [st |-> <<>>, gctx |-> NoRes, rt |-> <<>>]
 
 Top == open[Len(open)]
 AddChild(stack, id) == [stack EXCEPT ![Len(stack)].ch = Append(@, id)]
@@ -234,13 +368,14 @@ NoGenYet(fr) == fr.k = "srcf" /\ \A j \in 1..Len(fr.ch) : els[fr.ch[j]].k \in {"
 Open(kind) ==
   /\ phase = "build" /\ ntok < fam.maxtok /\ Len(open) < fam.depth
   /\ kind = "srcf" => fam.srcf
+  /\ kind \in fam.nodes
   /\ IF open = <<>> THEN els = <<>> /\ kind \in fam.roots
      ELSE IF Top.k = "split" THEN (IF Top.gen THEN kind \in {"src", "srcf"} ELSE kind \in {"seq", "src", "srcf"})
      ELSE IF NoGenYet(Top) THEN kind \in {"src", "srcf", "split"}
      ELSE kind \in {"seq", "split"}
   /\ open' = Append(open, [k |-> kind, ch |-> <<>>,
                            gen |-> open # <<>> /\ kind = "split" /\ NoGenYet(Top)])
-  /\ UNCHANGED <<fam, els, st, pol, phase, gctx, rt, peek>>
+  /\ UNCHANGED <<fam, els, eff, st, pol, phase, gctx, rt, peek, vin, gen, disk, first>>
 
 HasFields(tpl) == \E j \in 1..Len(tpl.toks) : tpl.toks[j].f
 \* SetContext.__init__ : try: self._set_context({}) except LenaKeyError: pass
@@ -263,11 +398,13 @@ Place(leaf, newpol) ==
   \* the freedom for bare accumulators is chosen when the first one appears
   /\ IF leaf.k = "acc" /\ \A j \in 1..Len(els) : els[j].k # "acc"
      THEN newpol \in Policies ELSE newpol = pol
+  \* a pipeline with two Caches is not run (they may name the same file: C18's subject)
+  /\ (fam.again /\ leaf.k = "cache") => \A j \in 1..Len(els) : els[j].k # "cache"
   /\ pol' = newpol
   /\ els' = Append(els, [k |-> leaf.k, p |-> leaf.p, v |-> leaf.v, ch |-> <<>>])
   /\ st' = Append(st, LeafInit(leaf))
   /\ open' = AddChild(open, Len(els) + 1)
-  /\ UNCHANGED <<fam, phase, gctx, rt, peek>>
+  /\ UNCHANGED <<fam, eff, phase, gctx, rt, peek, vin, gen, disk, first>>
 
 \* Close(pk): the constructor of the innermost open bracket runs; pk = TRUE: its _get_context() is
 \* requested at once (before the object is placed anywhere) - at most once per behaviour
@@ -277,30 +414,62 @@ Close(pk) ==
   /\ ~NoGenYet(Top)
   /\ pk => (fam.peek /\ peek = 0)
   /\ LET n == Len(els) + 1
-         E == Append(els, [k |-> Top.k, p |-> <<>>, v |-> NoTpl, ch |-> Top.ch])
+         node == [k |-> Top.k, p |-> <<>>, v |-> NoTpl, ch |-> Top.ch]
+         \* Split.__init__ first asks alter_sequence about every branch
+         E0 == Append(Eff, node)
+         alt == IF Top.k = "split" /\ disk # {} THEN AlterBranches(E0, pol, Top.ch, Append(st, St0), disk)
+                ELSE [E |-> E0, s |-> Append(st, St0)]
+         new == {j \in 1..Len(E0) : alt.E[j] # E0[j]}
          rest == SubSeq(open, 1, Len(open) - 1)
-     IN /\ els' = E
-        /\ st' = (IF pk THEN GetAndCache(E, pol, n, Construct(E, pol, n, Append(st, St0))).s
-                  ELSE Construct(E, pol, n, Append(st, St0)))
+     IN /\ els' = Append(els, node)
+        /\ eff' = (IF Top.k = "split" /\ AlterApplied
+                   THEN [j \in DOMAIN eff \cup new |-> [k |-> alt.E[j].k, ch |-> alt.E[j].ch]] ELSE eff)
+        /\ st' = (IF pk THEN GetAndCache(alt.E, pol, n, Construct(alt.E, pol, n, alt.s)).s
+                  ELSE Construct(alt.E, pol, n, alt.s))
         /\ peek' = (IF pk THEN n ELSE peek)
         /\ IF rest = <<>> THEN open' = rest /\ phase' = "built"
            ELSE open' = AddChild(rest, n) /\ UNCHANGED phase
-  /\ UNCHANGED <<fam, pol, gctx, rt>>
+  /\ UNCHANGED <<fam, pol, gctx, rt, vin, gen, disk, first>>
 
 Root == Len(els)
 Seen == [j \in 1..Len(els) |-> st[j].ctx]
-\* the finished pipeline is used: root._get_context(), then two values are run through it;
-\* nothing any object holds changes (RunKeepsStatic)
+\* the finished pipeline is used: root._get_context(), then the values of one of the family's
+\* inputs are run through it (the second execution gets the values of the first); nothing any
+\* object holds may change (RunKeepsStatic); the Caches leave their files
 UseRoot == /\ phase = "built"
-           /\ gctx' = Get1(els, pol, Root, st)
-           /\ rt' = RunRoot(els, Seen)
+           /\ \E in \in fam.rtins :
+                /\ gen = 2 => in = vin
+                /\ LET r == OpRoot(els, in, Seen) IN
+                   /\ vin' = in
+                   /\ rt' = r.vals
+                   /\ st' = [j \in DOMAIN st |-> [st[j] EXCEPT !.ctx = r.seen[j]]]
+           /\ gctx' = Get1(Eff, pol, Root, st)
+           /\ disk' = disk \cup CacheFiles(els, st)
            /\ phase' = "done"
-           /\ UNCHANGED <<fam, els, open, st, pol, peek>>
+           /\ UNCHANGED <<fam, els, eff, open, pol, peek, gen, script, first>>
 
-PlaceAny == \E leaf \in fam.leaves, np \in Policies : Place(leaf, np)
-OpenAny == \E kind \in {"seq", "src", "srcf", "split"} : Open(kind)
-CloseAny == \E pk \in BOOLEAN : Close(pk)
-Next == PlaceAny \/ OpenAny \/ CloseAny \/ UseRoot
+\* the program is executed again: every object is constructed anew by the same calls
+Again == /\ phase = "done" /\ fam.again /\ gen = 1
+         /\ gen' = 2 /\ phase' = "build"
+         /\ els' = <<>> /\ eff' = <<>> /\ open' = <<>> /\ st' = <<>> /\ pol' = "code"
+         /\ peek' = 0 /\ gctx' = NoRes /\ rt' = <<>>
+         /\ first' = [st |-> st, gctx |-> gctx, rt |-> rt]
+         /\ UNCHANGED <<fam, vin, script, disk>>
+
+\* one constructor call = one token of the program text
+NoLeaf == [k |-> "data", p |-> <<>>, v |-> NoTpl]
+Tok(op, leaf, kind, pk, np) == [op |-> op, leaf |-> leaf, kind |-> kind, pk |-> pk, np |-> np]
+Tokens == {Tok("place", leaf, "", FALSE, np) : leaf \in fam.leaves, np \in Policies}
+          \cup {Tok("open", NoLeaf, kind, FALSE, "code") : kind \in {"seq", "src", "srcf", "split"}}
+          \cup {Tok("close", NoLeaf, "", pk, "code") : pk \in BOOLEAN}
+Do(t) == CASE t.op = "place" -> Place(t.leaf, t.np)
+           [] t.op = "open" -> Open(t.kind)
+           [] OTHER -> Close(t.pk)
+Build == \/ /\ gen = 1
+            /\ \E t \in Tokens : Do(t) /\ script' = (IF fam.again THEN Append(script, t) ELSE script)
+         \/ /\ gen = 2 /\ script # <<>>
+            /\ Do(Head(script)) /\ script' = Tail(script)
+Next == Build \/ UseRoot \/ Again
 Spec == Init /\ [][Next]_vars
 Done == phase = "done"
 
@@ -320,7 +489,7 @@ HoldsExpected(i, in) ==
 \* a sequence / Split that received a context exports the fold, or raises naming the key
 ExportsExpected(n, in) ==
   IsNode(els[n]) /\ ~in.err =>
-    LET out == OutOf(els, pol, n, in) g == Get1(els, pol, n, st) IN
+    LET out == OutOf(els, pol, n, in) g == Get1(Eff, pol, n, st) IN
     IF out.err THEN g.exc = out.key /\ g.exc \in Unresolved(els, pol, n, in) ELSE g.exc = "" /\ g.ctx = out.ctx
 
 \* SeenIsExpected, at every step: inside every completed component every element holds the
@@ -333,16 +502,38 @@ SeenIsExpected ==
 \* Causal: evaluating later elements, or finishing a constructor, changes nothing that an
 \* object outside the finished constructor's own subtree holds
 Causal ==
-  [][\A i \in DOMAIN st :
+  [][phase = "build" =>
+       \A i \in DOMAIN st :
         st'[i] # st[i] => /\ Len(els') = Len(els) + 1 /\ IsNode(els'[Len(els')])
                           /\ i \in Below(els', Len(els'))]_vars
 
 \* requesting the context of a freshly built node changes nothing
-PeekIsPure == [][peek' # peek =>
+PeekIsPure == [][(peek' # peek /\ peek' # 0) =>
                    st' = Construct(els', pol, Len(els'), Append(st, St0))]_vars
 
-\* running values through the finished pipeline changes nothing an object holds
+\* running values through the finished pipeline changes nothing an object holds - whatever
+\* run-time contexts the values carry
 RunKeepsStatic == [][phase = "built" => st' = st]_vars
+
+\* the second execution of a program (new objects, the files of the first execution on the disk)
+\* ends like the first one in everything the statement fixes: what the consumers hold, what
+\* the nodes export, the root context, the run-time contexts.  (What a SetContext keeps for
+\* itself, and everything behind an unresolved key, may differ: the Source that alter_sequence
+\* builds and drops threads contexts through the elements after a filled Cache once more.)
+\* SeenIsExpected is checked at every step of both executions.
+ObsState(E, i, s, in) ==
+  CASE els[i].k \in {"store", "ucfs"} \/ IsMF(els[i].k) -> [c |-> s[i].ctx, h |-> TRUE, n |-> <<>>]
+    [] els[i].k \in {"write", "cache"} ->
+         IF NameOf(els, i, in).ok THEN [c |-> Empty, h |-> s[i].has, n |-> s[i].nm] ELSE [c |-> Empty, h |-> TRUE, n |-> <<>>]
+    [] IsNode(els[i]) -> LET g == Get1(E, pol, i, s) IN [c |-> g.ctx, h |-> g.exc = "", n |-> <<>>]
+    [] OTHER -> [c |-> Empty, h |-> TRUE, n |-> <<>>]
+Repeatable ==
+  (gen = 2 /\ Done) =>
+    LET w == Walk(els, pol, {}, Root, Empty).acc IN
+    /\ \A i \in DOMAIN w : ~w[i].err => ObsState(Eff, i, st, w[i]) = ObsState(els, i, first.st, w[i])
+    /\ (gctx.exc = "") = (first.gctx.exc = "")
+    /\ gctx.exc = "" => gctx = first.gctx
+    /\ ~OutOf(els, pol, Root, Cur(Empty)).err => rt = first.rt
 
 \* the fold of element i does not look at anything after i (document order = construction
 \* order; enclosing nodes are constructed later but are not "after")
@@ -378,9 +569,11 @@ ExpSeen == LET w == Walk(els, pol, {}, Root, Empty).acc IN
            [j \in 1..Len(els) |-> IF j \in DOMAIN w THEN w[j].ctx ELSE Empty]
 NoErr == ~OutOf(els, pol, Root, Cur(Empty)).err
 NoLeakToRuntime ==
-  Done => /\ NoErr => rt = RunRoot(els, ExpSeen)
+  Done => /\ NoErr => rt \in RunReadings(els, vin, ExpSeen)
+          \* without UpdateContextFromStatic a value leaves with the context it came with
+          \* (MakeFilename adds to "output" only)
           /\ (\A j \in 1..Len(els) : els[j].k # "ucfs") =>
-                \A j \in 1..Len(rt) : DOMAIN rt[j].m \subseteq {"output", "rt"}
+                \A j \in 1..Len(rt) : NoOut(rt[j]) \in {NoOut(vin[i]) : i \in 1..Len(vin)} \cup {Empty}
 
 (***************************************************************************)
 (* Alphabets.                                                              *)
@@ -438,7 +631,8 @@ LeavesWide == LeavesFull \cup LeavesFocus3b \cup LeavesFocus4
 (* Families (one TLC run explores all families of its configuration).      *)
 (***************************************************************************)
 Fam(id, leaves, maxtok, roots) == [id |-> id, leaves |-> leaves, maxtok |-> maxtok, roots |-> roots, depth |-> 3,
-                                   srcf |-> FALSE, peek |-> FALSE]
+                                   srcf |-> FALSE, peek |-> FALSE, rtins |-> {RTIn}, again |-> FALSE,
+                                   nodes |-> {"seq", "src", "srcf", "split"}]
 FamD(id, leaves, maxtok, roots, depth) == [Fam(id, leaves, maxtok, roots) EXCEPT !.depth = depth]
 \* context requested before placement (stale caches); Source whose generator exports context
 LeavesFocus6 == {SetC(KA, "int", "1"), Plain("store")}
@@ -448,6 +642,51 @@ FamSrcF(id, leaves, maxtok, roots) == [Fam(id, leaves, maxtok, roots) EXCEPT !.s
 SrcFRoot == {"srcf"}
 \* a branch with an unresolved key next to sibling branches (depth 4: the key sits in a nested sequence)
 LeavesFocus5 == {SetC(KA, "int", "1"), SetF(KB, <<Fld(KDE)>>)}
+(***************************************************************************)
+(* Three more dimensions of the statement's quantifier.                    *)
+(*  F8  a key that one SetContext sets to a plain value and a formatting   *)
+(*      field (of a SetContext, MakeFilename, Write, Cache) uses as a      *)
+(*      dictionary: "kd.ke" cannot be resolved when the prefix says        *)
+(*      kd = 1 - as unresolved as a missing key.                           *)
+(*  F9  values whose run-time context carries static keys (a nested one    *)
+(*      with another value, a sibling of a nested one, a plain one): what  *)
+(*      MakeFilename / UpdateContextFromStatic hold is the same after      *)
+(*      every value.                                                       *)
+(*  F10 the program is executed twice (Again): the second execution finds  *)
+(*      the files the Caches of the first one wrote.                       *)
+(***************************************************************************)
+KD == <<"kd">>
+MFde == Consumer("mf", <<Fld(KDE)>>)
+LeavesFocus8 == {SetC(KD, "int", "1"), SetC(KDE, "int", "2"), SetF(KB, <<Fld(KDE)>>), MFde,
+                 Consumer("write", <<Fld(KDE)>>), Consumer("cache", <<Fld(KDE), Lit(".pkl")>>), Plain("store")}
+RTV(m) == Dict(m @@ ("rt" :> Leaf("int", <<"0">>)))
+Five == Leaf("int", <<"5">>)
+\* the first value carries the key, the second does not
+RTInNested == <<RTV("kd" :> Dict("ke" :> Five)), RT1>>
+RTInSibling == <<RTV("kd" :> Dict("kf" :> Five)), RT1>>
+RTInPlain == <<RTV("ka" :> Five), RT1>>
+RTIns == {RTIn, RTInNested, RTInSibling, RTInPlain}
+LeavesFocus9 == {SetC(KDE, "int", "1"), SetC(KDF, "int", "2"), SetC(KA, "int", "1"), MFde,
+                 Consumer("mf", <<Fld(KA), Fld(KDF)>>), Plain("ucfs")}
+LeavesFocus9q == {SetC(KDE, "int", "1"), SetC(KDF, "int", "2"), MFde, Consumer("mf", <<Fld(KDF)>>), Plain("ucfs")}
+LeavesFocus10q == {SetC(KA, "int", "1"), Consumer("cache", <<Lit("c"), Lit(".pkl")>>),
+                   Consumer("cache", <<Fld(KA), Lit(".pkl")>>), Plain("store")}
+FamIn(id, leaves, maxtok, roots, rtins) == [Fam(id, leaves, maxtok, roots) EXCEPT !.rtins = rtins]
+LeavesFocus10 == {SetC(KA, "int", "1"), Consumer("cache", <<Lit("c"), Lit(".pkl")>>),
+                  Consumer("cache", <<Fld(KA), Lit(".pkl")>>), Plain("store"), Consumer("mf", <<Fld(KA)>>)}
+FamAgain(id, leaves, maxtok, roots, nodes) == [Fam(id, leaves, maxtok, roots) EXCEPT !.again = TRUE, !.nodes = nodes]
+SplitRoot == {"split"}
+FamF8 == {Fam("F8", LeavesFocus8, 4, SeqRoot)}
+FamF9 == {FamIn("F9", LeavesFocus9q, 4, SeqRoot, RTIns \ {RTInPlain})}
+FamF10 == {FamAgain("F10", LeavesFocus10q, 5, SplitRoot, {"seq", "split"})}
+FamNew == FamF8 \cup FamF9 \cup FamF10
+FamNewT == {Fam("F8", LeavesFocus8, 5, SeqRoot), FamIn("F9", LeavesFocus9q, 5, SeqRoot, RTIns),
+            FamAgain("F10", LeavesFocus10q, 6, SeqRoot, {"seq", "split"})}
+FamMFShare == {FamIn("mfshare", LeavesFocus9, 3, SeqRoot, RTIns)}
+\* without the empty-context skip the second execution differs (the Source alter_sequence builds
+\* and drops re-initialises the elements after a filled Cache with {})
+FamNoSkip2 == {FamAgain("noskip2", LeavesFocus10q, 5, SplitRoot, {"seq", "split"})}
+FamAlter == {FamAgain("alter", LeavesFocus10q, 5, SplitRoot, {"seq", "split"})}
 FamQuick == {Fam("A4", LeavesQuick, 4, AllRoots), Fam("B5", LeavesB, 5, SeqRoots),
              Fam("F1", LeavesFocus1, 6, SeqRoot), Fam("F2", LeavesFocus2, 5, SeqRoot),
              Fam("F3", LeavesFocus3b, 4, SeqRoot), Fam("F4", LeavesFocus4, 4, SeqRoots),
@@ -470,7 +709,14 @@ FamCache == {FamPeek("cache", LeavesFocus6, 6, SeqRoot, 4)}
 FamNoRepass == {FamSrcF("norepass", LeavesFocus7, 5, SrcFRoot)}
 FamNoSkip == {FamSrcF("noskip", LeavesFocus7, 5, SrcFRoot)}
 FamAbort == {FamD("abort", LeavesFocus5, 7, SeqRoot, 4)}
-FamSim == {Fam("W8", LeavesWide, 8, AllRoots)}
+FamSim == {Fam("W8", LeavesWide, 8, AllRoots),
+           [FamAgain("W8x", LeavesWide \cup LeavesFocus8 \cup LeavesFocus9, 8, AllRoots, {"seq", "src", "split"})
+              EXCEPT !.rtins = RTIns]}
+\* the quick export runs as three TLC processes side by side
+FamQuickA == {f \in FamQuick : f.id \in {"A4", "B5", "F1"}}
+FamQuickB == FamQuick \ FamQuickA
+FamQuickAll == FamQuick \cup FamNew
+FamThoroughAll == FamThorough \cup FamNewT
 FamAlias == {Fam("alias", LeavesMin, 4, SeqRoots)}
 FamTail == {Fam("tail", LeavesMin, 5, SrcRoot)}
 
@@ -494,11 +740,18 @@ LateOf(i, w) ==
            pos == CHOOSE j \in 1..Len(ch) : ch[j] = i
        IN [j \in 1..(Len(ch) - pos + 1) |->
              IF pos + j <= Len(ch) THEN w[ch[pos + j]].ctx ELSE OutOf(els, pol, n, w[n]).ctx]
+\* gens = 2: the observations are expected of the first execution and of a second one that finds
+\* the files of the first (files: the cache files the first execution leaves)
 Expectation ==
   LET w == Walk(els, pol, {}, Root, Empty).acc IN
   [fam |-> fam.id, els |-> els, pol |-> pol, peek |-> peek,
    obs |-> [i \in 1..Len(els) |-> ObsOf(i, w[i]) @@ [late |-> LateOf(i, w)]],
    noerr |-> NoErr,
-   rt |-> rt]
-Emitted == Done => PrintT(ToJson(Expectation))
+   vin |-> IF vin = RTIn THEN <<>> ELSE vin,      \* <<>>: the default values
+   gens |-> gen, files |-> IF fam.again THEN disk ELSE {},
+   \* rt: what the machine produced (the reading of the code, "top"; NoLeakToRuntime compares it
+   \* with the fold); rtm: the other reading where it differs
+   rt |-> rt,
+   rtm |-> LET m == RunRootV(els, [in |-> vin, mrg |-> "rec"], ExpSeen) IN IF m = rt THEN <<>> ELSE m]
+Emitted == (Done /\ (fam.again => gen = 2)) => PrintT(ToJson(Expectation))
 =============================================================================
